@@ -355,6 +355,16 @@ fn op_name(op: &Op) -> &'static str {
     }
 }
 
+/// a party named in AddBalance / WithdrawBalance parameters is presented by its key (client) or robust
+/// (miner) address in a third of the messages; the market resolves it, the model and the op line keep the id
+fn param_form(env: &Env, a: &Address, salt: u64) -> Address {
+    let Ok(idv) = a.id() else { return *a };
+    if (idv + salt) % 3 != 0 { return *a; }
+    if let Some(c) = env.clients.iter().find(|c| c.0 == *a) { return c.1; }
+    if let Some(m) = env.miner_of(a) { return m.robust; }
+    *a
+}
+
 fn build_proposal(env: &Env, d: &DealSpec) -> DealProposal {
     let client = if d.client < env.clients.len() {
         if d.client_key_form { env.clients[d.client].1 } else { env.clients[d.client].0 }
@@ -425,13 +435,14 @@ fn build(env: &Env, op: &Op, epoch: i64, min_pc: &BigInt) -> Built {
         Op::Advance { to } => Built { line: format!("epoch {}", to), from: market, to: market, value: TokenAmount::zero(), method: 0, params: None },
         Op::Add { from, target, value } => {
             let resolves = env.w.vm.actor(target).is_some();
+            let target_p = param_form(env, target, *value as u64);
             Built {
                 line: format!("add {} {} {}", target.id().unwrap(), value, resolves as u8),
                 from: *from,
                 to: market,
                 value: atto(*value),
                 method: MarketMethod::AddBalance as u64,
-                params: blk(target),
+                params: blk(&target_p),
             }
         }
         Op::Withdraw { caller, nominal, amount } => {
@@ -446,7 +457,7 @@ fn build(env: &Env, op: &Op, epoch: i64, min_pc: &BigInt) -> Built {
                 to: market,
                 value: TokenAmount::zero(),
                 method: MarketMethod::WithdrawBalance as u64,
-                params: blk(&WithdrawBalanceParams { provider_or_client: *nominal, amount: atto(*amount) }),
+                params: blk(&WithdrawBalanceParams { provider_or_client: param_form(env, nominal, *amount as u64), amount: atto(*amount) }),
             }
         }
         Op::Publish { caller, deals } => {
